@@ -7,7 +7,7 @@
 // (AMM(x, y) * R < x * y + m * R): powers[i] = AMM(powers[i-1] < R, x < m) < 2m, the accumulator after `mul_amm_assign(z < R, power < 2m)` is
 // < 3m, so the two conditional subtractions of m end in [0, m). The functional value (x^e in Montgomery form) is NOT stated here.
 // body: BoxedMontyMultiplier::new / mul_amm_assign / square_amm_assign / mul_amm (over the proved slice function), pow_montgomery_form.
-// stub (ASSUMED): BoxedMontyMultiplier::clear_product (`iter_mut().for_each(..)` closure: zeroes the product buffer).
+// BoxedMontyMultiplier::clear_product is a body (rewrite S3: `iter_mut().for_each(|l| *l = E)` -> `for l in ..iter_mut() { *l = E; }`); no stub left in this unit.
 // gen.py rewrite R12 turns the two `RangeInclusive` loops into `while more__k` loops (see units/README.md).
 use vstd::prelude::*;
 use vstd::arithmetic::power::*;
@@ -92,19 +92,33 @@ pub fn new(modulus: &'a BoxedUint, mod_neg_inv: Limb) -> (ret__: Self)
     }
 }
 //@@ end
-//@@ fn src/modular/boxed_monty_form/mul.rs | impl<'a> BoxedMontyMultiplier<'a> | clear_product | stub | props C08 C11
+// S3 (`iter_mut().for_each(|x| *x = E)` -> the equivalent `for x in ..iter_mut() { *x = E; }`: closures that assign through a `&mut` argument cannot be specified)
+//@@ subst ^(\s*)self\.product\s*$ => \1for limb in self.product
+//@@ subst ^(\s*)\.for_each\(\|limb\|\s*$ => \1
+//@@ subst ^\}\);\s*$ => ;}
+//@@ fn src/modular/boxed_monty_form/mul.rs | impl<'a> BoxedMontyMultiplier<'a> | clear_product | body | props C08 C11
 impl<'a> BoxedMontyMultiplier<'a> {
-#[verifier::external_body]
 pub fn clear_product(&mut self)
 //@+
     ensures final(self).same(old(self)), final(self).product.nl() == old(self).product.nl(),
         forall|j: int| 0 <= j < final(self).product.limbs@.len() ==> final(self).product.limbs@[j].0 == 0
 //@-
 {
-    unimplemented!()
-}
+        for limb in self.product
+            .limbs
+            .iter_mut()
+            
+//@+
+    invariant
+        forall|k: int| 0 <= k < VERUS_ghost_iter.index() ==> (*final(#[trigger] VERUS_ghost_iter.seq()[k])).0 == 0,
+//@-
+{
+*limb = Limb::ZERO
+;}
+    }
 }
 //@@ end
+//@@ subst-clear
 //@@ fn src/modular/boxed_monty_form/mul.rs | impl<'a> BoxedMontyMultiplier<'a> | mul_amm_assign | body | props C08 C11
 impl<'a> BoxedMontyMultiplier<'a> {
 pub fn mul_amm_assign(&mut self, a: &mut BoxedUint, b: &BoxedUint)
